@@ -9,6 +9,7 @@ namespace BSVerif.Scope
 def keyTok : Key → Tok
   | .str s => .str s
   | .int v => .int v
+  | .ts sec ns => .ts sec ns
 
 /-- `v` is one complete value: skipping it consumes exactly `v`, whatever follows and whatever else
     is still pending -/
